@@ -1,10 +1,15 @@
 (** C16 — text tables are laid out without loss (texttab.Format, repaired
-    all-shrink span) and the column header tree partitions the keys.
-    Statements only; proofs are in Proofs/TextTab*.v, Proofs/Runes.v, Proofs/KeyHeader.v. *)
+    all-shrink span), the column header tree partitions the keys at every level,
+    and the text and CSV renderings of a table agree (placement, column headers,
+    warnings/footnotes, cell references across tables).
+    Statements only; proofs are in Proofs/TextTab*.v, Proofs/Runes.v,
+    Proofs/KeyHeader*.v, Proofs/Render*.v. *)
 From Coq Require Import Permutation.
 From Perf Require Import Base.Bytes Model.Runes Model.TextTab Model.KeyHeader
      Proofs.Runes Proofs.TextTabWidths Proofs.TextTabEmit Proofs.TextTabFormat
-     Proofs.TextTabBuild Proofs.TextTabTop Proofs.KeyHeader Model.Render Proofs.Render.
+     Proofs.TextTabBuild Proofs.TextTabTop Proofs.KeyHeader Proofs.KeyHeaderLevels Proofs.KeyHeaderSpec
+     Model.Render Proofs.Render Proofs.RenderNotes Proofs.RenderRows Proofs.RenderAgree Proofs.RenderWarn
+     Proofs.RenderTables Proofs.RenderFirstUse.
 Local Open Scope Z_scope.
 
 (** after the widest-first loop over a non-empty set of growable columns — in
@@ -131,21 +136,80 @@ Theorem C16_blank_row_empty_line : forall t perm l r,
 Proof. exact layout_blank_row. Qed.
 Print Assumptions C16_blank_row_empty_line.
 
-(** header, one level: the nodes made for a parent are contiguous, disjoint,
-    cover its keys, each labelled with the value all its keys share, and
-    neighbouring nodes differ.
-    PARTIAL w.r.t. DESIGN 7.16 header_partition: the full statement
-      forall nf keys, Forall (fun k => length k = nf) keys ->
-        header_ok nf keys (key_header nf keys) = true
-    (all levels of the recursion, prefix sharing, children counts) is not proved;
-    [header_ok] is evaluated on every observed NewKeyHeader result instead. *)
-Theorem C16_header_partition_partial : forall level keys,
+Local Open Scope nat_scope.
+(** ** the column header tree (benchproc.NewKeyHeader), ALL levels.
+    [header_spec nf keys lv] (Proofs/KeyHeaderSpec.v): no keys => no levels;
+    otherwise exactly [nf] levels, and at every level l the cells
+    - tile the columns 0 .. #keys left to right ([tiling]: ordered, contiguous,
+      each >= 1 column: pairwise disjoint, covering);
+    - carry Field = l and, as Value, the value of field l of every key they span;
+    - span keys that agree on fields 0..l, while keys under neighbouring cells
+      do not agree on fields 0..l (maximal runs);
+    and the cells of level l+1 lie inside cells of level l ([refines]), whose
+    Children count is the number of those cells ([child_counts]; 0 at the last level). *)
+Theorem C16_header_partition : forall nf keys,
+  Forall (fun k => length k = nf) keys -> header_spec nf keys (key_header nf keys).
+Proof. exact header_partition. Qed.
+Print Assumptions C16_header_partition.
+
+(** so every column is under exactly one header cell per level, labelled with
+    the column key's value of that level's field *)
+Theorem C16_header_column_unique : forall nf keys lv l e k,
+  header_spec nf keys lv -> l < nf -> nth_error keys e = Some k ->
+  exists nodes n, nth_error lv l = Some nodes /\ In n nodes /\ covers n e /\ h_field n = l /\
+    h_value n = kget l k /\ forall n', In n' nodes -> covers n' e -> n' = n.
+Proof. exact header_column_unique. Qed.
+Print Assumptions C16_header_column_unique.
+
+(** what a tiling gives: cover, at most one cell per column, order/disjointness, contiguity *)
+Theorem C16_tiling_cover : forall nodes s e x,
+  tiling nodes s e -> s <= x < e -> exists n, In n nodes /\ covers n x.
+Proof. exact tiling_cover. Qed.
+Theorem C16_tiling_unique : forall nodes s e x n n',
+  tiling nodes s e -> In n nodes -> In n' nodes -> covers n x -> covers n' x -> n = n'.
+Proof. exact tiling_unique. Qed.
+Theorem C16_tiling_ordered : forall nodes s e pre a mid b post,
+  tiling nodes s e -> nodes = pre ++ a :: mid ++ b :: post -> h_start a + h_len a <= h_start b.
+Proof. exact tiling_ordered. Qed.
+Theorem C16_tiling_adjacent : forall nodes s e pre a b post,
+  tiling nodes s e -> nodes = pre ++ a :: b :: post -> h_start b = h_start a + h_len a.
+Proof. exact tiling_adjacent. Qed.
+Print Assumptions C16_tiling_unique.
+
+(** the decidable description evaluated on every observed NewKeyHeader result
+    ([header_ok], Corr/RunC16.v) holds of the model's tree, and means [header_spec]
+    for ANY tree *)
+Theorem C16_header_ok_complete : forall nf keys,
+  Forall (fun k => length k = nf) keys -> header_ok nf keys (key_header nf keys) = true.
+Proof. exact key_header_ok. Qed.
+Theorem C16_header_ok_sound : forall nf keys lv,
+  Forall (fun k => length k = nf) keys -> header_ok nf keys lv = true -> header_spec nf keys lv.
+Proof. exact header_ok_sound. Qed.
+Print Assumptions C16_header_ok_complete.
+Print Assumptions C16_header_ok_sound.
+
+(** degenerate inputs: no keys, or a projection without fields: no header lines *)
+Theorem C16_header_degenerate : forall nf keys, key_header nf [] = [] /\ key_header 0 keys = [].
+Proof. intros nf keys. split; [apply key_header_no_keys|apply key_header_no_fields]. Qed.
+
+(** one level of the grouping loop (used by the above): maximal runs *)
+Theorem C16_header_level_runs : forall level keys,
   let runs := group_runs level keys in
   concat (map snd runs) = keys /\ Forall (run_ok level) runs /\ adjacent_differ runs.
 Proof. exact header_runs_partition. Qed.
-Print Assumptions C16_header_partition_partial.
+Print Assumptions C16_header_level_runs.
 
-Local Open Scope nat_scope.
+(** non-vacuity: the example of keyheader.go's doc comment
+    (K0 = a:1 b:1 c:1, K1 = a:1 b:1 c:2, K2 = a:2 b:2 c:2, K3 = a:2 b:3 c:3) *)
+Example C16_header_example :
+  let keys := [[bs "1"; bs "1"; bs "1"]; [bs "1"; bs "1"; bs "2"]; [bs "2"; bs "2"; bs "2"]; [bs "2"; bs "3"; bs "3"]] in
+  Forall (fun k => length k = 3) keys /\
+  key_header 3 keys =
+    [[mkH 0 (bs "1") 0 2 1; mkH 0 (bs "2") 2 2 2];
+     [mkH 1 (bs "1") 0 2 2; mkH 1 (bs "2") 2 1 1; mkH 1 (bs "3") 3 1 1];
+     [mkH 2 (bs "1") 0 1 0; mkH 2 (bs "2") 1 1 0; mkH 2 (bs "2") 2 1 0; mkH 2 (bs "3") 3 1 0]].
+Proof. split; [repeat constructor|vm_compute; reflexivity]. Qed.
+
 (** ** text and CSV renderings agree (placement; the strings are the real
     Table's formatted values). [csv_start e] / [txt_start e] are the first CSV /
     texttab column of logical column [e]; the delta sits in the first column
@@ -196,11 +260,7 @@ Theorem C16_text_csv_agree_unit : forall unit n redge e,
 Proof. exact text_csv_agree_unit. Qed.
 Print Assumptions C16_text_csv_agree_unit.
 
-(** CSV column-key header rows: field [f] of column [e]'s key at csv_start e.
-    PARTIAL on the text side: that the text header cell covering column [e] at
-    level [f] carries the same value needs the all-levels KeyHeader theorem
-    (see C16_header_partition_partial); it is checked on every observed table
-    ([header_ok], [text_csv_ok]). *)
+(** CSV column-key header rows: field [f] of column [e]'s key at csv_start e *)
 Theorem C16_csv_header_at : forall cols f e key,
   nth_error cols e = Some key -> field (csv_header_row cols f) (csv_start e) = kget f key.
 Proof. exact csv_header_at. Qed.
@@ -212,6 +272,218 @@ Theorem C16_place_is_build : forall ops t col o,
   exists c, In c (t_cells t) /\ c_col c = col /\ (c_span c, c_val c, c_align c) = op_sig o.
 Proof. exact place_is_build. Qed.
 Print Assumptions C16_place_is_build.
+
+(** rows as well: [placed ops] lists (row, column, call) with texttab's row
+    counting; these are the rows and columns of the cells texttab lays out *)
+Theorem C16_placed_is_build : forall ops t row col o,
+  build ops = Some t -> In (row, col, o) (placed ops) ->
+  exists c, In c (t_cells t) /\ c_row c = row /\ c_col c = col /\ (c_span c, c_val c, c_align c) = op_sig o.
+Proof. exact placed_is_build. Qed.
+Print Assumptions C16_placed_is_build.
+
+(** header clause of text_csv_agree (with C16_header_partition): on text line f
+    (= CSV record f) of a table, the header cell over logical column e - it
+    starts at the start column of a column s <= e and ends at the start column
+    of s + len > e - carries the CSV header field of column e, i.e. field f of
+    column e's key; and no other cell of that line reaches over column e *)
+Theorem C16_text_csv_agree_header : forall t start f e key,
+  Forall (fun k => length k = rt_nf t) (rt_cols t) -> f < rt_nf t -> nth_error (rt_cols t) e = Some key ->
+  exists crow, nth_error (fst (csv_model t start)) f = Some crow /\
+  field crow (csv_start e) = kget f key /\
+  (exists s len, s <= e < s + len /\
+     In (f, txt_start s, OSpan (txt_start (s + len) - txt_start s) (field crow (csv_start e)) (Some bar3) ACenter)
+        (placed (fst (text_model t)))) /\
+  (forall col n v m a, In (f, col, OSpan n v m a) (placed (fst (text_model t))) ->
+     col <= txt_start e < col + n -> v = field crow (csv_start e)).
+Proof. exact text_csv_agree_header. Qed.
+Print Assumptions C16_text_csv_agree_header.
+
+(** the same for one header line on its own (any right-edge column beyond the table) *)
+Theorem C16_text_csv_agree_header_row : forall nf cols redge f e key,
+  Forall (fun k => length k = nf) cols -> f < nf -> nth_error cols e = Some key ->
+  txt_start (length cols) <= redge ->
+  let crow := csv_header_row cols f in
+  exists nodes, nth_error (key_header nf cols) f = Some nodes /\
+  let tops := text_header_row redge nodes in
+  field crow (csv_start e) = kget f key /\
+  (exists s len, s <= e < s + len /\
+     In (txt_start s, OSpan (txt_start (s + len) - txt_start s) (field crow (csv_start e)) (Some bar3) ACenter)
+        (place 0 tops)) /\
+  (forall col n v m a, In (col, OSpan n v m a) (place 0 tops) -> col <= txt_start e < col + n ->
+     v = field crow (csv_start e)).
+Proof. exact text_csv_agree_header_row. Qed.
+Print Assumptions C16_text_csv_agree_header_row.
+
+(** ** footnotes and cell references *)
+
+(** distinct footnote numbers give distinct marks, multi-digit ones included
+    (below 10^20: everything ToText's 20-rune buffer holds, so every Go int) *)
+Theorem C16_superscript_injective : forall i j,
+  (N.of_nat i < 10 ^ 20)%N -> (N.of_nat j < 10 ^ 20)%N -> superscript i = superscript j -> i = j.
+Proof. exact superscript_injective. Qed.
+Print Assumptions C16_superscript_injective.
+
+(** a footnote cell (marks joined by blanks) determines the list of its numbers *)
+Theorem C16_marks_text_injective : forall a b,
+  Forall (fun i => (N.of_nat i < 10 ^ 20)%N) a -> Forall (fun i => (N.of_nat i < 10 ^ 20)%N) b ->
+  marks_text a = marks_text b -> a = b.
+Proof. exact marks_text_injective. Qed.
+Print Assumptions C16_marks_text_injective.
+
+(** distinct CSV columns have distinct spreadsheet names (below 26^10: ToCSV's 10-byte buffer) *)
+Theorem C16_sheet_col_injective : forall n m, sheet_ok n -> sheet_ok m -> sheet_col n = sheet_col m -> n = m.
+Proof. exact sheet_col_injective. Qed.
+Print Assumptions C16_sheet_col_injective.
+
+(** one call of ToText's warn: the list is only extended, stays duplicate-free,
+    holds exactly the old and the new messages, and the marks written denote the
+    messages, in order *)
+Theorem C16_footnote_first_use : forall wl msgs,
+  let st := fnotes wl msgs in
+  footnote wl msgs = (fst st, marks_text (snd st)) /\
+  prefix wl (fst st) /\ (NoDup wl -> NoDup (fst st)) /\
+  (forall m, In m (fst st) <-> In m wl \/ In m msgs) /\
+  map (denote (fst st)) (snd st) = map Some msgs /\
+  Forall (fun i => 1 <= i <= length (fst st)) (snd st).
+Proof. intros wl msgs. split; [apply footnote_marks|apply fnotes_spec]. Qed.
+Print Assumptions C16_footnote_first_use.
+
+(** footnote number i denotes message m iff footer line i-1 reads "<mark i> m" *)
+Theorem C16_footer_denotes : forall wl i m,
+  denote wl i = Some m <-> exists k, i = S k /\ nth_error (text_footer wl) k = Some (superscript i ++ sp :: m).
+Proof. exact footer_denotes. Qed.
+Print Assumptions C16_footer_denotes.
+
+(** warnings clause of text_csv_agree, whole table: the final footnote list is
+    duplicate-free; for data row i (text line nh + i, CSV record nh + i,
+    spreadsheet row start + nh + i) and logical column e, the footnote cell
+    after the range holds marks denoting exactly the messages of the CSV
+    warning lines with reference (name of CSV column csv_start e, that row) -
+    the cell's sample and summary warnings, in order; the footnote cell after
+    the p/n likewise for the delta's column and the comparison's warnings; the
+    summary row's footnote cell for the geomean's warnings (text shows it for >= 2 rows) *)
+Theorem C16_text_csv_agree_warnings : forall t start,
+  table_ok t ->
+  let ops := fst (text_model t) in
+  let wl := snd (text_model t) in
+  let ws := snd (csv_model t start) in
+  let nh := rt_nf t + 1 in
+  NoDup wl /\
+  (forall i label cells e c,
+     nth_error (rt_rows t) i = Some (label, cells) -> nth_error cells e = Some (Some c) ->
+     (exists marks, In (nh + i, txt_start e + 2, OSpan 1 (marks_text marks) None ALeft) (placed ops) /\
+        marks_for wl marks (warn_msgs ws (sheet_col (csv_start e)) (start + nh + i)) /\
+        warn_msgs ws (sheet_col (csv_start e)) (start + nh + i) = rc_swarn c ++ rc_mwarn c) /\
+     (forall cm, 0 < e -> rc_cmp c = Some cm ->
+        exists marks, In (nh + i, txt_start e + 5, OSpan 1 (marks_text marks) None ALeft) (placed ops) /\
+          marks_for wl marks (warn_msgs ws (sheet_col (csv_start e + 2)) (start + nh + i)) /\
+          warn_msgs ws (sheet_col (csv_start e + 2)) (start + nh + i) = cm_warn cm)) /\
+  (1 < length (rt_rows t) -> forall e s, nth_error (rt_sums t) e = Some (Some s) ->
+     exists marks,
+       In (nh + length (rt_rows t), txt_start (S e) - 1, OSpan 1 (marks_text marks) None ALeft) (placed ops) /\
+       marks_for wl marks (warn_msgs ws (sheet_col (csv_start e)) (start + nh + length (rt_rows t))) /\
+       warn_msgs ws (sheet_col (csv_start e)) (start + nh + length (rt_rows t)) = rs_warn s).
+Proof. exact text_csv_agree_warnings. Qed.
+Print Assumptions C16_text_csv_agree_warnings.
+
+(** first-use numbering, exactly: the footnote list is the message sequence of
+    the table's CSV warning stream, de-duplicated in order of first occurrence
+    ([first_occ]; with a single row the text has no summary line, so only the
+    data rows' part of the stream) *)
+Theorem C16_text_footnotes_first_use : forall t start,
+  snd (text_model t) =
+  first_occ (map wmsg (if 1 <? length (rt_rows t) then snd (csv_model t start)
+                       else rows_wlines (start + (rt_nf t + 1)) 0 (rt_rows t))).
+Proof. exact text_footnotes_first_use. Qed.
+Theorem C16_first_occ_spec : forall l, NoDup (first_occ l) /\ forall x, In x (first_occ l) <-> In x l.
+Proof. exact first_occ_spec. Qed.
+Print Assumptions C16_text_footnotes_first_use.
+
+(** one data row on its own, from any footnote list so far *)
+Theorem C16_text_csv_agree_warnings_data : forall srow wl label cells e c,
+  sheet_ok (csv_start (length cells)) -> nth_error cells e = Some (Some c) ->
+  let ws := snd (csv_data_row srow label cells) in
+  let wl' := fst (text_data_ops wl label cells) in
+  let tops := snd (text_data_ops wl label cells) in
+  prefix wl wl' /\ (NoDup wl -> NoDup wl') /\
+  (exists marks, In (txt_start e + 2, OSpan 1 (marks_text marks) None ALeft) (place 0 tops) /\
+     marks_for wl' marks (warn_msgs ws (sheet_col (csv_start e)) srow) /\
+     warn_msgs ws (sheet_col (csv_start e)) srow = rc_swarn c ++ rc_mwarn c) /\
+  (forall cm, 0 < e -> rc_cmp c = Some cm ->
+     exists marks, In (txt_start e + 5, OSpan 1 (marks_text marks) None ALeft) (place 0 tops) /\
+       marks_for wl' marks (warn_msgs ws (sheet_col (csv_start e + 2)) srow) /\
+       warn_msgs ws (sheet_col (csv_start e + 2)) srow = cm_warn cm).
+Proof. exact text_csv_agree_warnings_data. Qed.
+Print Assumptions C16_text_csv_agree_warnings_data.
+
+Theorem C16_text_csv_agree_warnings_summary : forall srow wl label sums e s,
+  sheet_ok (csv_start (length sums)) -> nth_error sums e = Some (Some s) ->
+  let ws := snd (csv_summary_row srow label sums) in
+  let wl' := fst (text_summary_ops wl label sums) in
+  let tops := snd (text_summary_ops wl label sums) in
+  prefix wl wl' /\ (NoDup wl -> NoDup wl') /\
+  exists marks, In (txt_start (S e) - 1, OSpan 1 (marks_text marks) None ALeft) (place 0 tops) /\
+    marks_for wl' marks (warn_msgs ws (sheet_col (csv_start e)) srow) /\
+    warn_msgs ws (sheet_col (csv_start e)) srow = rs_warn s.
+Proof. exact text_csv_agree_warnings_summary. Qed.
+Print Assumptions C16_text_csv_agree_warnings_summary.
+
+(** several tables in one CSV output (Tables.ToCSV): table j is rendered with
+    startRow = [table_start 1 true tabs j] = 1 + (one row per blank separator,
+    per table-key header line and per record of the tables before it) + its own
+    separator and header lines; its record r is record start - 1 + r of the
+    whole output (spreadsheet row start + r), and the whole warning stream
+    restricted to a reference in the table's rows is the table's own stream *)
+Theorem C16_csv_tables_cellrefs : forall tabs j hs t,
+  nth_error tabs j = Some (hs, t) ->
+  let start := table_start 1 true tabs j in
+  1 <= start /\
+  (forall r, r < nrecs t ->
+     nth_error (fst (csv_tables_model tabs)) (start - 1 + r) = nth_error (fst (csv_model t start)) r) /\
+  (forall ref srow, start <= srow < start + nrecs t ->
+     warn_msgs (snd (csv_tables_model tabs)) ref srow = warn_msgs (snd (csv_model t start)) ref srow).
+Proof. exact csv_tables_cellrefs. Qed.
+Print Assumptions C16_csv_tables_cellrefs.
+
+(** end to end: in the whole output, the warning lines with the reference of
+    (data row i, logical column e) of table j carry exactly that cell's
+    warnings, and that spreadsheet row is the record of that data row, holding
+    the cell's centre in that column *)
+Theorem C16_csv_tables_cell_warnings : forall tabs j hs t i label cells e c,
+  nth_error tabs j = Some (hs, t) -> table_ok t ->
+  nth_error (rt_rows t) i = Some (label, cells) -> nth_error cells e = Some (Some c) ->
+  let srow := table_start 1 true tabs j + (rt_nf t + 1) + i in
+  warn_msgs (snd (csv_tables_model tabs)) (sheet_col (csv_start e)) srow = rc_swarn c ++ rc_mwarn c /\
+  exists rec, nth_error (fst (csv_tables_model tabs)) (srow - 1) = Some rec /\ field rec (csv_start e) = rc_csv c.
+Proof. exact csv_tables_cell_warnings. Qed.
+Print Assumptions C16_csv_tables_cell_warnings.
+
+(** non-vacuity: a 2-column, 2-row table with warnings (w1 twice: one number);
+    a second table after it starts on spreadsheet row 9: 1 header line, 5
+    records, 1 blank line, 1 header line *)
+Definition ex_c0 := mkRC (bs "10") (bs "10.00") (bs "1%") [bs "w1"] [] None.
+Definition ex_c1 := mkRC (bs "12") (bs "12.00") (bs "2%") [] [bs "w2"] (Some (mkCmp (bs "+20.00%") (bs "p=0.008 n=5") [bs "w1"])).
+Definition ex_t : rtable :=
+  mkRT (bs "sec/op") (bs "geomean") 1 [[bs "old"]; [bs "new"]]
+       [(bs "A", [Some ex_c0; Some ex_c1]); (bs "B", [Some ex_c0; None])]
+       [Some (mkRS true (bs "10") (bs "10.00") false [] []);
+        Some (mkRS true (bs "12") (bs "12.00") false [] [bs "w3"])].
+Example C16_warnings_example :
+  table_ok ex_t /\
+  snd (text_model ex_t) = [bs "w1"; bs "w2"; bs "w3"] /\
+  In (2, txt_start 1 + 5, OSpan 1 (marks_text [1]) None ALeft) (placed (fst (text_model ex_t))) /\
+  warn_msgs (snd (csv_model ex_t 2)) (sheet_col (csv_start 1 + 2)) 4 = [bs "w1"] /\
+  superscript 12 = [xc2; xb9; xc2; xb2] /\
+  table_start 1 true [([bs "pkg: a"], ex_t); ([bs "pkg: b"], ex_t)] 0 = 2 /\
+  table_start 1 true [([bs "pkg: a"], ex_t); ([bs "pkg: b"], ex_t)] 1 = 9 /\
+  snd (csv_tables_model [([bs "pkg: a"], ex_t); ([bs "pkg: b"], ex_t)])
+    = [(bs "B", 4, bs "w1"); (bs "D", 4, bs "w2"); (bs "F", 4, bs "w1"); (bs "B", 5, bs "w1"); (bs "D", 6, bs "w3");
+       (bs "B", 11, bs "w1"); (bs "D", 11, bs "w2"); (bs "F", 11, bs "w1"); (bs "B", 12, bs "w1"); (bs "D", 13, bs "w3")].
+Proof.
+  split.
+  - split; [discriminate|]. split; [repeat constructor; vm_compute; reflexivity|vm_compute; reflexivity].
+  - repeat split; vm_compute; tauto.
+Qed.
 
 (** non-vacuity: a 2-column table whose second column has no geomean: the
     delta "?" is in CSV column 5 (= csv_start 1 + 2, under "vs base") *)
